@@ -15,8 +15,9 @@ from checks import scenarios
 
 PROP = "C18"
 LEVEL = "proof"
-THEOREMS = {"Proofs.Props.C18": ["MsPack.Cab.C18_open_monotone", "MsPack.Cab.C18_block_monotone"]}
-ASSUMPTIONS = ["theorems cover cabd_read_headers and cabd_sys_read_block; the lift through feeder, decoders and extract is validated by differential runs and the parameter-combination oracle",
+THEOREMS = {"Proofs.Props.C18": ["MsPack.Cab.C18_open_monotone", "MsPack.Cab.C18_block_monotone"],
+            "Proofs.Props.C18Stored": ["MsPack.Cab.C18_stored_params_irrelevant"]}
+ASSUMPTIONS = ["theorems cover cabd_read_headers, cabd_sys_read_block and, for stored folders, extract() itself (any call sequence gives identical results under any two parameter records); the lift through the MSZIP/LZX/Quantum decoders is validated by differential runs and the parameter-combination oracle",
                "model validated against the C by differential execution"]
 RULE = ("cab.params: small generated cabinets (stored/MSZIP, 1-3 blocks, 1-4 members, optional reserves) and the shipped fixtures, each run under "
         "SALVAGE x FIXMSZIP in {0,1}^2; cab.badindex: one or more file entries given a folder index >= number of folders; cab.badcksum: stored checksum of one block "
